@@ -135,8 +135,13 @@ CHECKS["C18"] = dict(
          "fence + padding + size + fence on a served request, the figures of the other regions do not move, and a request needing more "
          "than what is reported as left is refused with the state unchanged (true upper bound). Tied by the translator validation (C19 "
          "harness), a grid run on the real pools, per-operation counter correspondence, and requests one byte above the reported maxima "
-         "as operations of the pool / collection / stack / iteration histories.",
-    note="pools and collections: 'maxima are true upper bounds' through C03 (oversize requests rejected), the above-maximum requests of the histories and D33 (recorded finding).",
+         "as operations of the pool / collection / stack / iteration histories. Reported maxima of compositions (Props/C18Compose): "
+         "for every composition of fallback_allocator, aligned/tracked wrappers and storages (any depth, both interfaces, any leaf "
+         "behaviour), if every leaf refuses what lies above its own figures then a node request above the composition's max_node_size() "
+         "or max_alignment() is never served; the figures allocator_traits reports for 14 real compositions are compared with Model.maxima.",
+    note="pools and collections: 'maxima are true upper bounds' through C03 (oversize requests rejected), the above-maximum requests of the histories and D33 (recorded finding). "
+         "binary_segregator reports its fallback's figures only: the bound is false for it (C18_segregator_max_counterexample, recorded finding D35); "
+         "array requests through compositions are covered by the correspondence of the reported figures only.",
     technique="Lean 4 proof over generated formulas + grid enumeration on the real code")
 CHECKS["C16"] = dict(
     text="Lean theorems over the L1 models (proxies and chunk ring as addresses): ordered list - releasing any node that is on the list "
